@@ -870,8 +870,8 @@ async fn main() {
     let mut scns: Vec<Scn> = wrap_corpus();
     scns.extend(corpus());
     scns.extend(timed_corpus(thorough));
-    let nrand = if thorough { 6000 } else { 900 };
-    let nwin = if thorough { 2000 } else { 300 };
+    let nrand = if thorough { 6000 } else { 1100 };
+    let nwin = if thorough { 2000 } else { 400 };
     for _ in 0..nrand { scns.push(gen_random(&mut r, &mut stats)); }
     for _ in 0..nwin { scns.push(gen_window(&mut r, &mut stats)); }
     if let Ok(only) = std::env::var("C13_ONLY") { scns.retain(|s| s.kind.contains(&only)); }
